@@ -5,10 +5,13 @@
 EXTENDS StdTables, Json, IOUtils, TLC
 
 Ev == INSTANCE Events103
+MM == INSTANCE MemMap
 
 Tables == [ gear |-> AllGearRows, gearspecial |-> GearSpecial102, dev |-> Dev103, inst |-> Inst103,
             devspecial |-> DevSpecial103, bitnames |-> BitNames, enums |-> Enums,
-            pushbutton |-> Ev!PushButtonCodes ]
+            pushbutton |-> Ev!PushButtonCodes,
+            memmap |-> MM!Map,
+            bankprops |-> [b \in MM!Banks |-> [lock |-> MM!Props(b).lock, latch |-> MM!Props(b).latch, number |-> MM!BankNumber(b)]] ]
 
 ASSUME JsonSerialize(IOEnv.EXPORT_TO, Tables)
 
